@@ -24,6 +24,7 @@ type SpecEnv struct {
 	isOld     bool
 	ghosts    map[string]string // ghost function name -> SMT function symbol of this application
 	recovered *Term             // value of recovered() (the in-flight panic value seen by a deferred function)
+	pos       token.Pos         // program point for resolving locals (call-site assertions); overrides the loop position
 }
 
 func (env *SpecEnv) with(name string, v Val) *SpecEnv {
@@ -72,11 +73,15 @@ func (ex *Exec) loopEnv(fr *Frame, li *loopInfo, st *State) *SpecEnv {
 
 // findLocal resolves a source-level variable name visible at the loop.
 func (ex *Exec) findLocal(fr *Frame, li *loopInfo, name string) *ssa.Alloc {
+	return ex.findLocalAt(fr, li, token.NoPos, name)
+}
+
+func (ex *Exec) findLocalAt(fr *Frame, li *loopInfo, at token.Pos, name string) *ssa.Alloc {
 	if fr == nil {
 		return nil
 	}
-	var pos token.Pos
-	if li != nil {
+	pos := at
+	if li != nil && !at.IsValid() {
 		// a position inside the loop statement
 		for _, b := range fr.fn.Blocks {
 			if !li.body[b.Index] {
@@ -230,7 +235,7 @@ func (ex *Exec) specIdent(name string, env *SpecEnv) Val {
 		return v
 	}
 	if env.fr != nil {
-		if a := ex.findLocal(env.fr, env.li, name); a != nil {
+		if a := ex.findLocalAt(env.fr, env.li, env.pos, name); a != nil {
 			if isLocalCell(a) {
 				if v, ok := env.lst.locals[a]; ok {
 					return v
@@ -412,7 +417,7 @@ func (ex *Exec) autoDeref(v Val) (PtrV, bool) {
 func (ex *Exec) specField(x EField, env *SpecEnv) Val {
 	// qualified identifier?
 	if id, ok := x.X.(EIdent); ok {
-		if _, isVar := env.vars[id.Name]; !isVar && (env.fr == nil || ex.findLocal(env.fr, env.li, id.Name) == nil) {
+		if _, isVar := env.vars[id.Name]; !isVar && (env.fr == nil || ex.findLocalAt(env.fr, env.li, env.pos, id.Name) == nil) {
 			if obj := ex.prog.lookupObject(id.Name, x.Name, env.pkg); obj != nil {
 				if v, ok := ex.objectVal(obj, env); ok {
 					return v
